@@ -318,12 +318,24 @@ Outcome(r) ==
               ELSE IF r.msg = "TRUNC" THEN PE(st, "truncated")
               ELSE OnDeadChannel(r, st, "opening")
 
-\* what the session hears when the application then calls resume_reading()
+\* the channel after the application has then called resume_reading()
+Resumed(r, o) ==
+    LET o0 == [o EXCEPT !.cb = <<>>, !.out = <<>>]
+    IN IF o.rd = "reading" THEN o0 ELSE FlushRecv([o0 EXCEPT !.rd = "reading"], r.keep)
+Settled(r, o) == o.cls # "protocol_error" /\ ~o.gone /\ r.chan \in {"known", "reused"}
+
+\* what the session hears at that point
 Later(r, o) ==
-    IF o.cls = "protocol_error" \/ o.gone \/ o.rd = "reading" \/ r.chan \notin {"known", "reused"}
-    THEN <<>>
-    ELSE LET f == FlushRecv([o EXCEPT !.rd = "reading", !.cb = <<>>, !.out = <<>>], r.keep)
+    IF ~Settled(r, o) \/ o.rd = "reading" THEN <<>>
+    ELSE LET f == Resumed(r, o)
          IN IF f.gone THEN Append(f.cb, <<"connection_lost", 0>>) ELSE f.cb
+
+\* ... and what happens when the peer finally closes the channel
+NoEpilogue == [cls |-> "none", cb |-> <<>>, out |-> <<>>, create |-> "none"]
+Epilogue(r, o) ==
+    IF ~Settled(r, o) \/ Resumed(r, o).gone THEN NoEpilogue
+    ELSE LET c == Final(ProcClose([Resumed(r, o) EXCEPT !.cb = <<>>, !.out = <<>>]))
+         IN [cls |-> c.cls, cb |-> c.cb, out |-> c.out, create |-> c.create]
 
 -----------------------------------------------------------------------------
 VARIABLE row
@@ -334,6 +346,7 @@ Spec == Init /\ [][Next]_vars
 
 O == Outcome(row)
 L == Later(row, O)
+E == Epilogue(row, O)
 
 -----------------------------------------------------------------------------
 (* RFC 4254 section 5: what an honest peer may still send, given what it has sent *)
@@ -403,10 +416,18 @@ NoDataAfterLocalClose ==
 \* only the message itself can be refused: a refusal has no other effect
 ErrorHasNoEffect == O.cls = "protocol_error" => O.cb = <<>> /\ O.out = <<>>
 
+\* whatever was sent, the peer's CLOSE afterwards ends the channel in order: the session
+\* hears connection_lost and nothing else, and over the whole row the endpoint sends
+\* exactly one CLOSE of its own (none if its CLOSE had gone out before)
+ClosesCleanly ==
+    E.cls # "none" =>
+        /\ E.cls = "accept" /\ E.cb = <<<<"connection_lost", 0>>>>
+        /\ Count(O.out \o E.out, "CLOSE") = (IF row.ss = "closed" THEN 0 ELSE 1)
+
 \* RFC 4254 6.5: only one of shell / exec / subsystem can succeed per channel
 StartOnce ==
     (row.msg = "REQ_START" /\ row.chan = "known" /\ row.rd # "starting") => Count(O.cb, "session_started") = 0
 
 \* emits the table (always TRUE)
-EmitRow == PrintT(ToString(<<"SCRIPT", row, [o |-> O, later |-> L, honest |-> Honest(row)]>>))
+EmitRow == PrintT(ToString(<<"SCRIPT", row, [o |-> O, later |-> L, epi |-> E, honest |-> Honest(row)]>>))
 =============================================================================
